@@ -164,7 +164,7 @@ type Run struct {
 	nondets  []*NondetRec
 	nameSeq  map[string]int
 	verdicts []*Verdict
-	violated map[string]bool // shared per harness (assertions already violated)
+	violated map[string]int // shared per harness: counterexamples kept per assertion (maxCexPerAssertion alternatives for replay)
 	vmu      *sync.Mutex
 	stats    *RunStats
 	instrs   int64
@@ -458,16 +458,21 @@ func (r *Run) recordChoice(name string, kind string, v int64) {
 func (r *Run) isViolated(id string) bool {
 	r.vmu.Lock()
 	defer r.vmu.Unlock()
-	return r.violated[id]
+	return r.violated[id] >= maxCexPerAssertion
 }
+
+// maxCexPerAssertion: alternatives kept per assertion id; the replay step tries them in turn, so a model
+// that relies on an idealised environment value (e.g. four arbitrary bytes equal to a SHA-256 prefix) does
+// not mask a constructive counterexample of the same assertion found on another path.
+const maxCexPerAssertion = 4
 
 func (r *Run) markViolated(id string) bool {
 	r.vmu.Lock()
 	defer r.vmu.Unlock()
-	if r.violated[id] {
+	if r.violated[id] >= maxCexPerAssertion {
 		return false
 	}
-	r.violated[id] = true
+	r.violated[id]++
 	return true
 }
 
@@ -579,7 +584,9 @@ func (r *Run) assertCond(g *G, cond Value, id string) {
 
 func (r *Run) unmarkViolated(id string) {
 	r.vmu.Lock()
-	delete(r.violated, id)
+	if r.violated[id] > 0 {
+		r.violated[id]--
+	}
 	r.vmu.Unlock()
 }
 
@@ -710,7 +717,7 @@ func (e *Engine) exploreHarness(fn *ssa.Function, workers int) *HarnessResult {
 	q := &workQueue{}
 	q.cond = sync.NewCond(&q.mu)
 	q.push([][]int{{}})
-	violated := map[string]bool{}
+	violated := map[string]int{}
 	qcache := &sync.Map{}
 	var vmu sync.Mutex
 	var rmu sync.Mutex
@@ -816,7 +823,7 @@ func (e *Engine) exploreHarness(fn *ssa.Function, workers int) *HarnessResult {
 	return res
 }
 
-func (e *Engine) newRun(fn *ssa.Function, prefix []int, sol *Solver, violated map[string]bool, vmu *sync.Mutex) *Run {
+func (e *Engine) newRun(fn *ssa.Function, prefix []int, sol *Solver, violated map[string]int, vmu *sync.Mutex) *Run {
 	return &Run{
 		eng: e, sol: sol, harness: fn, hname: fn.Name(), prefix: prefix,
 		printer: &printer{defined: map[int]string{}, out: &strings.Builder{}},
